@@ -33,20 +33,17 @@ MANIFEST = {
     "technique": "deterministic simulation with exception / I/O-error injection at a seeded (item, worker, schedule point); bounded-liveness oracle in virtual time",
 }
 BUDGET = {"quick": (2500, 60), "thorough": (150000, 1500)}
-REQUIRED_PROBES = {"quick": ["injected_exception"], "thorough": ["injected_exception", "injected_io_error", "injected_unreadable_input"]}
+REQUIRED_PROBES = {"quick": ["injected_exception"], "thorough": ["injected_exception", "injected_io_error", "injected_unreadable_input", "injected_real_code_failure"]}
 CHUNK = 25
 LIVENESS_BOUND = 600.0
 
 STAGES = [stages.WalkStage, stages.LeafVisitStage, stages.TransformStage, stages.U8TransformStage]
-try:
-    from . import multi_stages
-    STAGES += [multi_stages.MultiTanStage, multi_stages.MultiWcsStage]
-except ImportError:
-    pass
+from . import multi_stages
+STAGES += [multi_stages.MultiTanStage, multi_stages.MultiWcsStage, stages.RealCascadeStage, stages.RealSamplingStage, stages.F16TransformStage]
 
 
 def pick_stage(ch):
-    weights = [6, 5, 4, 1, 1, 1][:len(STAGES)]
+    weights = [6, 5, 4, 1, 1, 1, 2, 1, 1][:len(STAGES)]
     tot = sum(weights)
     v = ch.draw(tot, kind="stage")
     acc = 0
@@ -86,12 +83,12 @@ class IoFault(object):
             raise OSError(errno.EIO, "injected I/O error on tile %s (%s)" % (kind, rel))
 
 
-def run_corrupt_input(ch, env, stage, workers, res):
-    """An input image that cannot be read (truncated data): wherever toasty reads it - in a worker or in the
-    producer - the tiling must fail visibly, in serial mode and in every parallel mode."""
-    stage.corrupt_input = ch.draw(len(stage.col.rects), kind="which_input")
-    res["config"].update(fault="unreadable-input", corrupt_input=stage.corrupt_input)
-    res["extra"]["fault_unreadable_input"] = 1
+def run_intrinsic(ch, env, stage, workers, res, label):
+    """A failure that is part of the workload itself - an input image or tile file that cannot be read, a sampler
+    that raises - rather than injected through the recording callback: wherever toasty hits it (a worker, the
+    producer, the real per-item code), the operation must fail visibly, in serial mode and in every parallel mode."""
+    res["config"].update(fault=label)
+    res["extra"]["fault_" + label.split(" ")[0]] = 1
     d = env.fresh_dir()
     stage.populate(d)
     rec = stages.Recorder(None)
@@ -101,8 +98,13 @@ def run_corrupt_input(ch, env, stage, workers, res):
     except Exception:
         pass
     else:
+        if getattr(stage, "must_fail_serial", False):
+            res["violation"] = viol(PROP, "swallowed", "serial %s returned normally although %s (%s)" % (stage.name, label, stage.describe()), "serial:" + stage.name)
+            res["digest"] = "serial"
+            res["nontrivial"] = True
+            return res
         # the truncation did not make this input unreadable (e.g. only padding was cut): nothing to test
-        res["digest"] = "input-still-readable"
+        res["digest"] = "serial-mode-did-not-fail"
         res["extra"]["not_injected"] = 1
         return res
     d = env.fresh_dir()
@@ -119,15 +121,17 @@ def run_corrupt_input(ch, env, stage, workers, res):
     main_task = sim.run(main)
     common.sim_summary(sim, res)
     res["nontrivial"] = True
-    res.setdefault("faults", {})["injected_unreadable_input"] = 1
+    key = "injected_unreadable_input" if label == "unreadable-input" else "injected_real_code_failure"
+    res.setdefault("faults", {})[key] = 1
     what = "%s(parallel=%d)" % (stage.name, workers)
+    tag = stage.name + (":unreadable-input" if label == "unreadable-input" else "")
     if sim.status == "returned":
         if main_task.exc is None:
-            res["violation"] = viol(PROP, "swallowed", "%s returned normally although input #%d cannot be read (serial mode raises); worker stderr: %s" % (
-                what, stage.corrupt_input, (sim.stderr[0][-300:] if sim.stderr else "none")), stage.name + ":unreadable-input")
+            res["violation"] = viol(PROP, "swallowed", "%s returned normally although %s makes the serial mode raise; %s; worker stderr: %s" % (
+                what, label, stage.describe(), (sim.stderr[0][-300:] if sim.stderr else "none")), tag)
         return res
-    res["violation"] = viol(PROP, "hang", "%s neither raised nor returned with an unreadable input #%d: simulator status %s at step %d; blocked: %s" % (
-        what, stage.corrupt_input, sim.status, sim.step, [(t.name, t.waiting_op) for t in sim.tasks if t.state == "blocked"][:8]), stage.name + ":unreadable-input")
+    res["violation"] = viol(PROP, "hang", "%s neither raised nor returned (%s; %s): simulator status %s at step %d; blocked: %s" % (
+        what, label, stage.describe(), sim.status, sim.step, [(t.name, t.waiting_op) for t in sim.tasks if t.state == "blocked"][:8]), tag)
     return res
 
 
@@ -141,6 +145,7 @@ def run_one(ch, env):
     res = {"config": dict(stage.describe(), workers=workers, cb_yields=nyield, n_items=n_items),
            "extra": {"stage_" + stage.name: 1, "workers_%d" % workers: 1}}
     needs_dir = getattr(stage, "needs_dir", False)
+    common.draw_progress(ch, res)
     if getattr(stage, "expected_from_serial", False):
         d = env.fresh_dir()
         stage.populate(d)
@@ -152,9 +157,13 @@ def run_one(ch, env):
         res["digest"] = "no-items"
         res["extra"]["no_items"] = 1
         return res
+    if getattr(stage, "intrinsic_fault", False):
+        return run_intrinsic(ch, env, stage, workers, res, "corrupt tile / failing sampler in the real per-item code")
     input_mode = hasattr(stage, "col") and ch.draw(3, kind="corrupt_input") == 2
     if input_mode:
-        return run_corrupt_input(ch, env, stage, workers, res)
+        stage.corrupt_input = ch.draw(len(stage.col.rects), kind="which_input")
+        res["config"].update(corrupt_input=stage.corrupt_input)
+        return run_intrinsic(ch, env, stage, workers, res, "unreadable-input")
     io_mode = needs_dir and getattr(stage, "io_faults", True) and ch.draw(2, kind="fault_kind") == 1
     k = ch.draw(n_items, kind="fail_at")
     err = stages.ERROR_KINDS[ch.draw(len(stages.ERROR_KINDS), kind="error_kind")]
